@@ -159,6 +159,11 @@ SLICES = {'Kripke.__init__': 10, 'DiGraph.__init__': 3, 'Kripke.clone': 2, 'DiGr
           '_checkStateFormula': 3, '_checkEX': 2, '_checkEU': 14, '_checkEG': 8, 'And.get_equivalent_restricted_formula': 2}
 
 
+# every function's obligations are spread over a few workers: on the committed tree this costs a repeated (cheap)
+# symbolic execution, on a broken tree it keeps the failing obligations (tens of seconds each) from queueing up
+DEFAULT_SLICES = 3
+
+
 def verify_function(arg):
     """arg = (qualname, repo, timeout_ms, seed[, slice_index, n_slices]); symbolic execution is
     repeated in every slice (cheap, deterministic), each slice discharges its share"""
@@ -204,11 +209,11 @@ def run_functions(ctx, functions, timeout_ms=None):
     timeout_ms = timeout_ms or (20000 if ctx.tier == 'quick' else 120000)
     jobs = []
     for q in functions:
-        ns = SLICES.get(q, 1)
+        ns = SLICES.get(q, DEFAULT_SLICES)
         for si in range(ns):
             jobs.append((q, core.REPO, timeout_ms, ctx.seed, si, ns))
     # heavy functions first
-    jobs.sort(key=lambda j: -SLICES.get(j[0], 1))
+    jobs.sort(key=lambda j: -SLICES.get(j[0], DEFAULT_SLICES))
     parts = ctx.pmap(verify_function, jobs, chunksize=1)
     merged = {}
     for r in parts:
